@@ -37,7 +37,7 @@ Definition upd {A} (f : cls -> A) (c : cls) (v : A) : cls -> A := fun c' => if N
 
 (* ------------------------------------------------------------------ scalar masks *)
 (* a field the adapter does not write (read) comes back as the default token 0 *)
-Fixpoint mask (m : list bool) (s : list tok) : list tok :=
+Fixpoint mask (m : list bool) (s : list tok) {struct s} : list tok :=
   match s with
   | [] => []
   | t :: s' => match m with
